@@ -246,7 +246,7 @@ def getAllRes : SRes → Res
   | r => .raised (excOf r)
 
 def getAllP (keys : Option (List Int)) (dir : Option Dir) : Prog Res :=
-  .exec (.selectAll (match keys with | some [] => none | k => k) dir) fun r => .ret (getAllRes r)
+  .exec (.selectAll (normKeys keys) dir) fun r => .ret (getAllRes r)
 
 def Op.prog : Op → Prog Res
   | .createOrLoad t s => createOrLoadP t s
